@@ -31,12 +31,26 @@ func GetSource(mdfile string) (string, error) {
 	if err != nil {
 		return "", err
 	}
-	if !utf8.Valid(inbuf) {
-		// the conversion to runes below would turn every bad byte into a well-formed U+FFFD
-		return "", fmt.Errorf("%s: illegal UTF-8 encoding", mdfile)
+	// The conversion to runes turns every byte that is not UTF-8 into a well-formed U+FFFD.
+	// Remember where that happens: in prose it does not matter, inside a fenced block the
+	// scanner would have reported it.
+	src := string(inbuf)
+	input := make([]rune, 0, len(src))
+	var illFormed []int
+	for i, r := range src {
+		if r == utf8.RuneError {
+			if _, width := utf8.DecodeRuneInString(src[i:]); width == 1 {
+				illFormed = append(illFormed, len(input))
+			}
+		}
+		input = append(input, r)
 	}
-	input := []rune(string(inbuf))
 	loadMd(input)
+	for _, k := range illFormed {
+		if input[k] != ' ' {
+			return "", fmt.Errorf("%s: illegal UTF-8 encoding in a fenced block", mdfile)
+		}
+	}
 	return string(input), nil
 }
 
